@@ -53,6 +53,7 @@ def recheck(names, checks):
                 print(f"[{name}] {c}: rc={rc} {viol[0] if viol else ''}", flush=True)
         finally:
             sh("git -C /repo checkout -- .")
+            sh(f"python3 {ROOT}/tools/decls.py /repo/src {ROOT}/lean/LruMem/Generated/Decls.lean")
             for f in os.listdir(os.path.join(ROOT, "replays")):
                 os.remove(os.path.join(ROOT, "replays", f))
         meta["rechecked_at_verif_commit"] = sh("git -C /verif rev-parse --short HEAD")[1].strip()
@@ -129,6 +130,7 @@ def main():
             print(f"   {c}: rc={rc} {viol[0] if viol else ''}")
     finally:
         sh("git -C /repo checkout -- .")
+        sh(f"python3 {ROOT}/tools/decls.py /repo/src {ROOT}/lean/LruMem/Generated/Decls.lean")
         # replays written while the seed was applied are not evidence about the real tree
         for f in os.listdir(os.path.join(ROOT, "replays")):
             os.remove(os.path.join(ROOT, "replays", f))
